@@ -25,7 +25,9 @@
 (*           = "wrapping" models the comparison done in fixed-width        *)
 (*           arithmetic (binary STL in 4.6.5: uint32 face_count * 50), and *)
 (*           "none" an array sized by a count nothing was compared with    *)
-(*           (glTF accessor without a bufferView); TLC reports both.       *)
+(*           (glTF accessor without a bufferView), "declared" a count      *)
+(*           compared with another field of the same header; TLC reports   *)
+(*           all three.                                                    *)
 (*                                                                         *)
 (* Part 2 - fault sequences over an abstract file layout (a sequence of    *)
 (* fields: header, counts, records, terminator): truncate, corrupt a field *)
@@ -82,6 +84,9 @@ Dispatch == /\ phase = "parsed" /\ phase' = "header"
 \* arrays sized by the count are allocated
 LengthOK == CASE LengthCheck = "exact"    -> count * RecSize = size * RecSize
               [] LengthCheck = "wrapping" -> (count * RecSize) % Modulus = (size * RecSize) % Modulus
+              \* compared with another field of the same header (a declared total length) instead of with
+              \* what is really there: some value of that field lets every count pass
+              [] LengthCheck = "declared" -> \E d \in 0..(CountMax * RecSize) : count * RecSize <= d
               [] OTHER                    -> TRUE
 HeaderOk == /\ phase = "header" /\ LengthOK
             /\ alloc' = count * RecSize /\ phase' = "loading"
@@ -155,12 +160,15 @@ CountClasses ==
     \cup {c \in IntClass : c.base = "n" /\ c.delta = 0 /\ c.pow > 0 /\ c.mul = 1 /\ ~c.neg}           \* n + 2^k
     \cup {c \in IntClass : c.delta \in {0, 1} /\ c.pow \in SignPows /\ c.mul = 1 /\ c.neg}          \* -2^k, -2^k - 1, -(n + 2^k)
     \cup {c \in IntClass : c.base = "n" /\ c.delta = 0 /\ c.pow = 0 /\ c.mul = 1 /\ c.neg}           \* -n
+\* two adjacent fields corrupted together (a bound taken from one corruptible field for the other): both large
+PairClasses == {c \in CountClasses : c.base = "zero" /\ ~c.neg /\ c.mul = 1 /\ c.delta \in {-1, 0} /\ c.pow \in {29, 30, 31, 32}}
 RealClasses == {"nan", "inf", "neginf", "huge", "tiny", "negzero", "max", "broken", "hex", "long", "int", "empty"}
 StructClasses == {"delete", "null", "empty_list", "empty_dict", "string", "real", "true", "nested", "neg", "big"}
 \* the wrap class of the STL defect (uint32 count * 50-byte records) must be among them
 ASSUME [base |-> "n", delta |-> 0, pow |-> 31, mul |-> 1, neg |-> FALSE] \in CountClasses
 \* (state-level on purpose: TLC evaluates constant-level definitions, PrintT included, at start-up of every run)
-EmitClasses == (Len(faults) = 0) => PrintT(ToJson([ints |-> CountClasses, reals |-> RealClasses, structs |-> StructClasses]))
+EmitClasses == (Len(faults) = 0) => PrintT(ToJson([ints |-> CountClasses, reals |-> RealClasses, structs |-> StructClasses,
+                                                pairs |-> PairClasses \X PairClasses]))
 
 Entries4 == {"load", "load_mesh", "load_scene", "load_path"}
 Classes4 == {"zero", "max", "negative", "random"}
